@@ -525,6 +525,22 @@ func c14Method(c *Ctx, ct *Cont, fd *ast.FuncDecl, m *types.Func, fam, name stri
 		}
 		nSel++
 		fail := func(w string) { r1("action").Fail("%s", w) }
+		// `result.spine = append(result.spine, parseVal(x))`: Add of one value, inlined from a private helper
+		pushStore := func(ps Step, want func(Term) bool) bool {
+			if ps.Kind != "store" || !ct.IsList {
+				return false
+			}
+			base, sct := v.spineOf(ps.LHS)
+			if sct == nil || !sct.IsList || !sameTerm(base, result) {
+				return false
+			}
+			ap, isA := ps.RHS.(TBuiltin)
+			if !isA || ap.Name != "append" || len(ap.Args) != 2 || !sameTerm(eraseEpochs(ap.Args[0]), eraseEpochs(ps.LHS)) {
+				return false
+			}
+			pv, isPV := ap.Args[1].(TCall)
+			return isPV && pv.Fun != nil && pv.Fun.Pkg() == c.Types && pv.Fun.Name() == "parseVal" && len(pv.Args) == 1 && want(pv.Args[0])
+		}
 		switch fam {
 		case "ForEach":
 			if len(effs) != 1 || effs[0].Kind != "call" {
@@ -555,6 +571,9 @@ func c14Method(c *Ctx, ct *Cont, fd *ast.FuncDecl, m *types.Func, fam, name stri
 				return
 			}
 			st := effs[1].Call
+			if pushStore(effs[1], func(t Term) bool { return sameTerm(t, *effs[0].Call) }) {
+				break
+			}
 			if st == nil || st.Fun == nil || st.Recv == nil || !sameTerm(st.Recv, result) {
 				fail("the callback's result is not stored into the result container")
 				return
@@ -591,7 +610,10 @@ func c14Method(c *Ctx, ct *Cont, fd *ast.FuncDecl, m *types.Func, fam, name stri
 				if st != nil {
 					args = unpack(st.Args)
 				}
-				if st == nil || st.Fun == nil || st.Fun.Name() != "Add" || st.Recv == nil || !sameTerm(st.Recv, result) || len(args) != 1 || !isElemVal(args[0]) {
+				pushOK := pushStore(effs[1], isElemVal)
+				if pushOK {
+					// accepted
+				} else if st == nil || st.Fun == nil || st.Fun.Name() != "Add" || st.Recv == nil || !sameTerm(st.Recv, result) || len(args) != 1 || !isElemVal(args[0]) {
 					fail("Filter must Add exactly the tested element to the result")
 					return
 				}
